@@ -54,6 +54,8 @@ ASSUMPTIONS = ["2xN profile tables cover psi_n in [0, 1] (tables that do not are
                "synthetic grids are uniform (as EFIT grids are); bundled-grid field magnitudes are not judged (np.gradient "
                "discretisation up to 11 % of max), only orientation",
                "points where the in-plane field is exactly zero have no defined basis and are skipped (counted)"]
+ASAN_MODULES = ['cherab.tools.equilibrium.efit', 'cherab.core.math.mappers', 'cherab.core.math.mask', 'cherab.core.math.clamp']
+ASAN = dict(cases=300, workers=8, timecap=240)
 QUICK = dict(cases=400, workers=2, timecap=35)
 THOROUGH = dict(cases=30000, workers=16, timecap=600)
 REQUIRED = {"psin_nonneg": 20000, "psin_clamp_decisive": 20, "psin_def": 20000, "psi_nodes": 1000, "psi_analytic": 5000,
